@@ -27,6 +27,9 @@ CONCRETISATIONS = [  # (name, scale, offset)
     ("third", 1.0 / 3.0, 0.0),
     ("sub-eps", 2.0 ** -60, 0.0),      # a box narrower than machine epsilon in absolute terms (lower < upper all the same)
     ("1e-300", 1e-300, 0.0),
+    # "very large ranges": boxes whose range is a finite double but twice the range is not (2^1023 <= range < 2^1024); only
+    # the lattice points that are finite doubles at this scale take part (|k| <= 3, box width <= 3)
+    ("near-max", 2.0 ** 1022, 0.0),
 ]
 
 
@@ -56,6 +59,13 @@ def main(table_path: str, out_path: str) -> None:
             # second coordinate: an interior point of another box; it must not move
             lo2, hi2 = off - 7 * scale, off + 11 * scale
             y = off + 2 * scale
+            if cname == "near-max":
+                if hi - lo > 3 or max(abs(lo), abs(hi)) > 3:
+                    continue
+                cs = [c for c in cs if abs(c["xk"]) <= 3]
+                if not cs:
+                    continue
+                lo2, hi2 = 0.0, 3 * scale
             xs = np.array([[conc(c["xk"], c["xd"], scale, off), y] for c in cs], dtype=np.float64)
             bounds = np.array([[lo_f, hi_f], [lo2, hi2]], dtype=np.float64)
             before = xs.copy()
@@ -79,7 +89,13 @@ def main(table_path: str, out_path: str) -> None:
                          ("multiple" if (c["xk"] - lo) % (hi - lo) == 0 else "general")))
                 sig = (f"method={m} box=({lo_f!r},{hi_f!r}) x={x_f!r} lattice=(lo={lo},hi={hi},x=<<{c['xk']},{c['xd']}>>)"
                        f" conc={cname}{sig_extra}")
+                # a class of the INPUT (not of the outcome): finite x, finite box, but x - lower is no finite double
+                if not math.isfinite(float(x_f) - float(lo_f)):
+                    sig += " input_class=x-lower-overflows"
                 det = {"result": repr(float(r)), "expected": repr(e_f), "kind": kind}
+                if math.isnan(float(r)):
+                    viol.append({"clause": "C17_LandsInBox", "signature": sig, "detail": det})
+                    return kind, e_f, det, sig
                 if not (lo_f <= r <= hi_f):
                     viol.append({"clause": "C17_LandsInBox", "signature": sig, "detail": det})
                 if inside and not abs(r - x_f) <= 4 * ulp:
@@ -111,7 +127,7 @@ def main(table_path: str, out_path: str) -> None:
                 except Exception as ex:  # noqa: BLE001
                     viol.append({"clause": "C17_LandsInBox", "signature": f"method={m} conc={cname} layout={lname}", "detail": {"exception": repr(ex)[:200]}})
                     continue
-                if alt.shape != res.shape or not np.array_equal(alt, res):
+                if alt.shape != res.shape or not np.array_equal(alt, res, equal_nan=True):     # (a NaN is reported by laws() on the plain layout)
                     badrow = int(np.argmax(np.any(alt != res, axis=1))) if alt.shape == res.shape else -1
                     viol.append({"clause": "C17_LandsInBox" if alt.shape != res.shape or not (bounds[0, 0] <= alt[badrow, 0] <= bounds[0, 1]) else "C17_MatchesDefinition",
                                  "signature": f"method={m} box=({lo_f!r},{hi_f!r}) conc={cname} layout={lname} x={float(xs[badrow, 0])!r}",
